@@ -13,7 +13,7 @@
      diag_index_in_range_lemma EVERY SyntaxError of the model carries an index < len(lines): no site is
                                excluded (`located` is the constant true).  The dummy index 0 of the no-line
                                sites is in range too, because such a diagnostic needs at least one line.
-     diag_classified_lemma     every SyntaxError (site, i) of parse_real is of one of five kinds
+     diag_classified_lemma     every SyntaxError (site, i) of parse_real is of one of four kinds
                                  (a) line i exists and `culprit site` holds of it        (located, right line)
                                  (b) site is a block site and the diagnostic was raised while the dedented
                                      body of the @for loop opening on some line `start` was re-parsed: i
@@ -23,35 +23,34 @@
                                      (brace errors inside blocks carry no line)          (known finding F14b)
                                  (d) site is a "call:*" site of validate_passage_arguments and i = 0 is a dummy
                                      (post-parse validation has no line)                 (known finding F14b)
-                                 (e) site is a content site to which only the MODEL gives line i: the text of a
-                                     choice (core.py calls parse_choice_line without line context) and
-                                     "content:nesting-depth" (parse_inline_conditional raises a bare
-                                     SyntaxError); the real messages name no line  (known findings
-                                     construct:choice-text-brace:no-line, content.py parse_inline_conditional)
+                               (An earlier version had a kind (e): content diagnostics that only the MODEL put on
+                               a line -- the text of a choice, and the nesting cap of inline conditionals.  /repo
+                               53252c0 and eecafed made the real compiler pass the line there too; they are
+                               kind (a) now: c_content / choice_text_rejected.)
      every_site_is_known_lemma every site name parse_real can produce is in one of the four lists main_sites
                                (26), block_sites (14), content_sites (2), call_sites (8)
+     culprit_all_line_sites_lemma    every site but the "call:*" ones: kind (a), (b) [block sites] or (c) [content]
      culprit_covered_sites_lemma     covered = main_sites + block_sites: kind (a), or (b) for a block site
      culprit_main_sites_lemma        the 26 main-loop sites: kind (a), always
      culprit_block_sites_lemma       the 14 block sites: kind (a) or (b)
      culprit_block_sites_outside_loops_lemma   ... kind (a) when no line of the story opens a loop
-     culprit_content_sites_partial_lemma       the 2 content sites: kind (a), (c) or (e)
-     content_braces_outside_blocks_lemma       "content:braces" with no @if/@for opener in the story and not in
-                                               a choice text: kind (a)
+     culprit_content_sites_lemma               the 2 content sites: kind (a) or (c)
+     culprit_content_sites_outside_blocks_lemma   ... kind (a) when no line of the story opens an @if / @for
      call_sites_carry_no_line_lemma            the 8 call sites: i = 0
      loop_body_index_is_not_the_line_refuted_lemma, block_content_has_no_line_refuted_lemma,
      call_target_has_no_line_refuted_lemma     kinds (b), (c), (d) happen: witnesses (replayed on the real code)
    For the unclosed-block sites ("if-unclosed", "for-unclosed", "py-unclosed") and for "nesting-too-deep" the
-   culprit is the OPENING line.
+   culprit is the OPENING line.  For the content sites the culprit is: parse_content_line rejects the line (as
+   written, without its glue marker, or dedented as a `-> @join` block line is) with this diagnostic, or the line
+   is a choice whose text parse_choice_line rejects with it.
 
-   NOT COVERED by a culprit statement (every site name that is not in `covered`, with the reason):
+   NOT COVERED by a culprit statement (with the reason):
      call:unknown-target, call:arguments-to-parameterless, call:malformed-arguments, call:too-many-positional,
      call:unknown-keyword, call:missing-required, call:positional-and-keyword, call:jump-to-join
                                kind (d): raised after the loop by validate_passage_arguments, which has no line
                                in hand; the model's index 0 is a placeholder (the real message has no line).
-     content:braces            covered only where the real compiler has the line: content lines of the main loop
-                               (with or without the glue marker) and of `-> @join` blocks (kind (a)); inside @if
-                               branches / @for bodies it is kind (c), in a choice text kind (e).
-     content:nesting-depth     never located in the real compiler: kind (c) or (e).
+     content:braces, content:nesting-depth when raised inside an @if branch or a @for body
+                               kind (c): _append_text_lines / parse_choice_line are called there without an index.
      every block site when raised while a loop body is re-parsed: kind (b).
    Covered with a caveat:
      stmt:python-syntax        culprit = the line opens a `~` statement; for a statement that spans several lines
@@ -59,10 +58,10 @@
                                Python blames), which the oracle py_stmt_ok does not expose: the model says i
                                (Compiler/ParseMain.v header).  That Python rejected the assembled statement is
                                not restated here.
-   What ties the model's index to the real compiler's: harness correspondence compares only the exception class
-   of a diagnostic, not its index; every story of section 11 (examples and witnesses) was replayed on the real
-   compiler (BardCompiler().compile_string): the line in the message is the model's index + 1 for every kind
-   (a) and (b) story, and the message names no line for the kind (c), (d), (e) stories.
+   What ties the model's index to the real compiler's: the correspondence runs of C11/C12 compare only the exception
+   class of a diagnostic; harness/diag_index_tie.py compares the index (real "on line N" = model index + 1 for kinds
+   (a), (b); no line in the message for kinds (c), (d)) on generated malformed stories, and every story of section
+   11 (examples and witnesses) was replayed by hand on the real compiler with that result.
    DValue diagnostics (duplicate passages, no passages, @start not found, ...) carry no index in the model. *)
 From Coq Require Import String Ascii List Bool Arith ZArith Lia.
 From Bardic Require Import PyStr Value Compiled Lex ParseBase ParseLine ParseMain ParseBlocks.
@@ -246,8 +245,8 @@ Definition block_sites : list string :=
    "if-missing-colon"; "if-missing-close"; "elif-missing-colon"; "elif-missing-close"; "else-missing-colon";
    "endif-colon"; "if-unclosed";
    "for-missing-colon"; "for-invalid"; "endfor-colon"; "for-unclosed"; "nesting-too-deep"].
-(* raised by parse_content_line / parse_inline_conditional: with the line in the main loop and in a
-   `-> @join` block, WITHOUT a line inside @if branches and @for bodies *)
+(* raised by parse_content_line / parse_inline_conditional (also through parse_choice_line): with the line in
+   the main loop and in a `-> @join` block, WITHOUT a line inside @if branches and @for bodies *)
 Definition content_sites : list string := ["content:braces"; "content:nesting-depth"].
 (* raised by validate_passage_arguments after the loop: never a line (the model's index is the dummy 0) *)
 Definition call_sites : list string :=
@@ -334,25 +333,20 @@ Definition block_shape (s : string) : option (string -> bool) :=
 Definition c_block (s l : string) : bool :=
   match block_shape s with Some f => f l | None => false end.
 
-(* content sites, the located part: "content:braces" when parse_content_line rejects the line as a content
-   line, the line without its glue marker `<>`, or the line with some leading characters removed (a line of a
-   `-> @join` block is dedented before it is parsed) *)
+(* content sites ("content:braces", "content:nesting-depth"), where the compiler has the line in hand:
+   parse_content_line rejects the line as a content line, the line without its glue marker `<>`, or the line
+   with some leading characters removed (a line of a `-> @join` block is dedented before it is parsed) -- or the
+   line is a choice whose TEXT parse_choice_line rejects (since /repo 53252c0 the main loop re-raises that
+   diagnostic through format_error with the choice's index; since eecafed parse_content_line does the same for
+   the nesting cap of parse_inline_conditional, with the index its caller gave it) *)
 Definition unglued (l : string) : string := take (String.length (rstrip l) - 2) (rstrip l).
 Definition content_direct (s l : string) : bool :=
   site_is (parse_content_line (unglued l)) s
   || existsb (fun b => site_is (parse_content_line (drop b l)) s) (seq 0 (S (String.length l))).
-Definition c_content (s l : string) : bool := String.eqb s "content:braces" && content_direct s l.
-
-(* NOT part of `culprit`: content diagnostics to which the MODEL gives the index of the line, while the real
-   compiler raises them without any line (known findings construct:choice-text-brace:no-line and
-   "content.py parse_inline_conditional ... SBare"; replayed, see the report):
-     * a brace error in the TEXT of a choice: core.py calls parse_choice_line(line, passage) without line
-       context, Compiler/ParseMain.v re-tags its diagnostic with i;
-     * "content:nesting-depth": parse_inline_conditional raises a bare SyntaxError whatever the caller passed,
-       the model re-tags it like "content:braces". *)
-Definition c_content_unplaced (s l : string) : bool :=
-  csite s &&
-  (site_is (parse_choice_line l) s || (String.eqb s "content:nesting-depth" && content_direct s l)).
+Definition choice_text_rejected (s l : string) : bool :=
+  (startswith l "+ " || startswith l "* ") && site_is (parse_choice_line l) s.
+Definition c_content (s l : string) : bool :=
+  csite s && (content_direct s l || choice_text_rejected s l).
 
 Definition culprit_families : list (string -> string -> bool) :=
   [c_header; c_render; c_input; c_hook; c_unhook; c_stmt; c_choice; c_unparsed; c_block; c_content].
@@ -1120,17 +1114,11 @@ Definition raised_in_block (lines : list string) (s : string) : Prop :=
     ((is_if_line (strip l0) = true /\ extract_conditional_block_real lines i0 = PDiag (DSyntax s 0)) \/
      (is_for_line (strip l0) = true /\ extract_loop_block_real lines i0 = PDiag (DSyntax s 0))).
 
-(* kind (e): a content diagnostic that the MODEL puts on line k although the real compiler raises it without a
-   line (see c_content_unplaced) *)
-Definition unplaced_at (lines : list string) (s : string) (k : nat) : Prop :=
-  exists l, nth_error lines k = Some l /\ c_content_unplaced s l = true.
-
 Definition G (lines : list string) (s : string) (k : nat) : Prop :=
   k < length lines /\
   (culprit_at lines s k \/
    (bsite s = true /\ raised_in_loop_body lines s k) \/
-   (csite s = true /\ k = 0 /\ raised_in_block lines s) \/
-   (csite s = true /\ unplaced_at lines s k)).
+   (csite s = true /\ k = 0 /\ raised_in_block lines s)).
 
 Lemma G_culprit : forall lines s k l f,
   nth_error lines k = Some l -> In f culprit_families -> f s l = true -> G lines s k.
@@ -1152,17 +1140,13 @@ Proof.
   apply orb_true_r.
 Qed.
 
-(* a diagnostic of parse_content_line on (a dedented / unglued form of) line k: "content:braces" is located,
-   "content:nesting-depth" is kind (e) *)
+(* a diagnostic of parse_content_line on (a dedented / unglued form of) line k is located on line k *)
 Lemma content_direct_G : forall lines s k l,
   nth_error lines k = Some l -> csite s = true -> content_direct s l = true -> G lines s k.
 Proof.
   intros lines s k l Hn Hc Hd.
-  pose proof Hc as Hc'. apply str_in_In in Hc'. simpl in Hc'. destruct Hc' as [<-|[<-|[]]].
-  - apply (G_culprit lines _ k l c_content); [exact Hn|fam|].
-    unfold c_content. rewrite Hd. reflexivity.
-  - split; [eapply nth_error_lt; eauto|]. right; right; right. split; [reflexivity|].
-    exists l. split; auto. unfold c_content_unplaced. rewrite Hd. cbn. apply orb_true_r.
+  apply (G_culprit lines _ k l c_content); [exact Hn|fam|].
+  unfold c_content. rewrite Hc, Hd. reflexivity.
 Qed.
 
 Lemma site_is_CS : forall A (m : pres A) s, diag_sat CS m -> site_is m s = true -> csite s = true.
@@ -1204,7 +1188,7 @@ Proof.
                   lines i line Hn Eif s k E) as [Hk [[Hb [Hc|Hr]]|[Hc ->]]].
     - split; auto.
     - split; auto.
-    - split; auto. right; right; left. repeat split; auto. exists i, line. split; auto. }
+    - split; auto. right; right. repeat split; auto. exists i, line. split; auto. }
   destruct (startswith (strip line) "<<for " || startswith (strip line) "@for ") eqn:Efor.
   { apply ds_bind; [|intros [t consumed] _; apply ds_ok].
     cbn [x_loop real_extractors].
@@ -1214,7 +1198,7 @@ Proof.
                   lines i line Hn Efor s k E) as [Hk [[Hb [Hc|Hr]]|[Hc ->]]].
     - split; auto.
     - split; auto.
-    - split; auto. right; right; left. repeat split; auto. exists i, line. split; auto. }
+    - split; auto. right; right. repeat split; auto. exists i, line. split; auto. }
   destruct (startswith (strip line) "@render") eqn:Erender.
   { apply ds_bind; [|intros [t|] _; apply ds_ok].
     apply (Hretag _ _ c_render); [fam|]. intros s Hs. unfold c_render. rewrite Erender, Hs. reflexivity. }
@@ -1245,8 +1229,8 @@ Proof.
     apply ds_bind.
     { intros s k E. apply retag_inv in E. destruct E as [-> Hs].
       pose proof (site_is_CS _ _ _ (parse_choice_line_CS line) Hs) as Hc.
-      split; [eapply nth_error_lt; eauto|]. right; right; right. split; [exact Hc|].
-      exists line. split; auto. unfold c_content_unplaced. rewrite Hc, Hs. reflexivity. }
+      apply (Hhere _ c_content); [fam|]. unfold c_content, choice_text_rejected.
+      rewrite Hc, Echoice, Hs. cbn [andb]. apply orb_true_r. }
     intros oc Hoc. apply retag_ok in Hoc.
     destruct oc as [[text target args cond sticky sec tags blk]|].
     - destruct (String.eqb target "@join"); [|apply ds_ok].
@@ -1317,7 +1301,6 @@ Definition G' (lines : list string) (s : string) (k : nat) : Prop :=
   (culprit_at lines s k \/
    (bsite s = true /\ raised_in_loop_body lines s k) \/
    (csite s = true /\ k = 0 /\ raised_in_block lines s) \/
-   (csite s = true /\ unplaced_at lines s k) \/
    (callsite s = true /\ k = 0)).
 
 Lemma parse_G' : forall ls, diag_sat (G' (prepass ls)) (parse_real pp is_call ls).
@@ -1328,12 +1311,11 @@ Proof.
   rewrite <- Epre. assert (Hpos : 0 < length (prepass ls)) by (rewrite Epre; simpl; lia).
   apply ds_bind.
   { eapply ds_weaken; [apply parse_loop_G|]. intros s k [Hk H]. split; [exact Hk|].
-    destruct H as [H|[H|[H|H]]];
-      [left; exact H|right; left; exact H|right; right; left; exact H|right; right; right; left; exact H]. }
+    destruct H as [H|[H|H]]; [left; exact H|right; left; exact H|right; right; left; exact H]. }
   intros st _. apply ds_bind; [unfold check_duplicate_passages; destruct (existsb _ _); [apply ds_dvalue|apply ds_ok]|].
   intros _ _. apply ds_bind.
   { eapply ds_weaken; [apply validate_passages_CALL|]. intros s k [Hc ->]. split; [exact Hpos|].
-    right; right; right; right. split; [exact Hc|reflexivity]. }
+    right; right; right. split; [exact Hc|reflexivity]. }
   intros _ _. apply ds_bind; [apply determine_initial_nosyntax|intros; apply ds_ok].
 Qed.
 
@@ -1441,8 +1423,7 @@ Proof.
   - unfold c_unparsed in Hf. repeat (apply andb_prop in Hf; destruct Hf as [Hf _]).
     apply String.eqb_eq in Hf. subst. reflexivity.
   - apply c_block_bsite in Hf. rewrite Hf. rewrite orb_true_r. reflexivity.
-  - unfold c_content in Hf. apply andb_prop in Hf. destruct Hf as [Hf _]. apply String.eqb_eq in Hf.
-    subst. reflexivity.
+  - unfold c_content in Hf. apply andb_prop in Hf. destruct Hf as [Hf _]. rewrite Hf. apply orb_true_r.
 Qed.
 
 (* ------------------------------------------------------------------------------------------- *)
@@ -1454,7 +1435,6 @@ Lemma diag_classified_lemma : forall pp is_call ls site i,
   (culprit_at (prepass ls) site i \/
    (bsite site = true /\ raised_in_loop_body (prepass ls) site i) \/
    (csite site = true /\ i = 0 /\ raised_in_block (prepass ls) site) \/
-   (csite site = true /\ unplaced_at (prepass ls) site i) \/
    (callsite site = true /\ i = 0)).
 Proof.
   intros pp is_call ls site i H. destruct (parse_G' pp is_call ls site i H) as [Hk Hc].
@@ -1469,10 +1449,9 @@ Lemma every_site_is_known_lemma : forall pp is_call ls site i,
   parse_real pp is_call ls = PDiag (DSyntax site i) -> known_site site = true.
 Proof.
   intros pp is_call ls site i H. unfold known_site.
-  destruct (diag_classified_lemma _ _ _ _ _ H) as [_ [(l & _ & Hc)|[[Hb _]|[[Hc _]|[[Hc _]|[Hc _]]]]]].
+  destruct (diag_classified_lemma _ _ _ _ _ H) as [_ [(l & _ & Hc)|[[Hb _]|[[Hc _]|[Hc _]]]]].
   - rewrite (culprit_known _ _ Hc). reflexivity.
   - rewrite Hb. rewrite orb_true_r. reflexivity.
-  - rewrite Hc. rewrite orb_true_r. reflexivity.
   - rewrite Hc. rewrite orb_true_r. reflexivity.
   - rewrite Hc. apply orb_true_r.
 Qed.
@@ -1482,9 +1461,8 @@ Lemma culprit_main_sites_lemma : forall pp is_call ls site i,
   exists l, nth_error (prepass ls) i = Some l /\ culprit site l = true.
 Proof.
   intros pp is_call ls site i H Hm.
-  destruct (diag_classified_lemma _ _ _ _ _ H) as [_ [Hc|[[Hb _]|[[Hc _]|[[Hc _]|[Hc _]]]]]]; [exact Hc| | | |].
+  destruct (diag_classified_lemma _ _ _ _ _ H) as [_ [Hc|[[Hb _]|[[Hc _]|[Hc _]]]]]; [exact Hc| | |].
   - rewrite (bsite_not_msite _ Hb) in Hm. discriminate.
-  - rewrite (csite_not_msite _ Hc) in Hm. discriminate.
   - rewrite (csite_not_msite _ Hc) in Hm. discriminate.
   - rewrite (callsite_not_msite _ Hc) in Hm. discriminate.
 Qed.
@@ -1495,9 +1473,8 @@ Lemma culprit_block_sites_lemma : forall pp is_call ls site i,
   raised_in_loop_body (prepass ls) site i.
 Proof.
   intros pp is_call ls site i H Hb.
-  destruct (diag_classified_lemma _ _ _ _ _ H) as [_ [Hc|[[_ Hr]|[[Hc _]|[[Hc _]|[Hc _]]]]]];
-    [left; exact Hc|right; exact Hr| | |].
-  - rewrite (bsite_not_csite _ Hb) in Hc. discriminate.
+  destruct (diag_classified_lemma _ _ _ _ _ H) as [_ [Hc|[[_ Hr]|[[Hc _]|[Hc _]]]]];
+    [left; exact Hc|right; exact Hr| |].
   - rewrite (bsite_not_csite _ Hb) in Hc. discriminate.
   - rewrite (bsite_not_callsite _ Hb) in Hc. discriminate.
 Qed.
@@ -1523,38 +1500,34 @@ Proof.
   exfalso. eapply no_loop_no_reparse; eauto.
 Qed.
 
-(* the content sites: located ("content:braces" on a content line of the main loop or of a `-> @join` block), or
-   one of the two no-line kinds *)
-Lemma culprit_content_sites_partial_lemma : forall pp is_call ls site i,
+(* the content sites: located (a content line of the main loop or of a `-> @join` block, the text of a choice), or
+   raised without a line inside an @if / @for block *)
+Lemma culprit_content_sites_lemma : forall pp is_call ls site i,
   parse_real pp is_call ls = PDiag (DSyntax site i) -> csite site = true ->
   (exists l, nth_error (prepass ls) i = Some l /\ culprit site l = true) \/
-  (i = 0 /\ raised_in_block (prepass ls) site) \/
-  unplaced_at (prepass ls) site i.
+  (i = 0 /\ raised_in_block (prepass ls) site).
 Proof.
   intros pp is_call ls site i H Hc.
-  destruct (diag_classified_lemma _ _ _ _ _ H) as [_ [Hk|[[Hb _]|[[_ Hr]|[[_ Hu]|[Hk _]]]]]];
-    [left; exact Hk| |right; left; exact Hr|right; right; exact Hu|].
+  destruct (diag_classified_lemma _ _ _ _ _ H) as [_ [Hk|[[Hb _]|[[_ Hr]|[Hk _]]]]];
+    [left; exact Hk| |right; exact Hr|].
   - rewrite (bsite_not_csite _ Hb) in Hc. discriminate.
   - rewrite (csite_not_callsite _ Hc) in Hk. discriminate.
 Qed.
 
-(* "content:braces" outside blocks and outside choice texts: located *)
+(* ... located whenever the story has no @if / @for opener *)
 Definition no_block_opener (lines : list string) : bool :=
   forallb (fun l => negb (is_if_line (strip l) || is_for_line (strip l))) lines.
 
-Lemma content_braces_outside_blocks_lemma : forall pp is_call ls i,
-  parse_real pp is_call ls = PDiag (DSyntax "content:braces" i) ->
+Lemma culprit_content_sites_outside_blocks_lemma : forall pp is_call ls site i,
+  parse_real pp is_call ls = PDiag (DSyntax site i) -> csite site = true ->
   no_block_opener (prepass ls) = true ->
-  (forall l, nth_error (prepass ls) i = Some l -> site_is (parse_choice_line l) "content:braces" = false) ->
-  exists l, nth_error (prepass ls) i = Some l /\ culprit "content:braces" l = true.
+  exists l, nth_error (prepass ls) i = Some l /\ culprit site l = true.
 Proof.
-  intros pp is_call ls i H Hno Hch.
-  destruct (culprit_content_sites_partial_lemma _ _ _ _ _ H eq_refl) as [Hk|[[_ (i0 & l0 & Hn & Hr)]|(l & Hl & Hu)]];
-    [exact Hk| |].
-  - exfalso. unfold no_block_opener in Hno. rewrite forallb_forall in Hno.
-    specialize (Hno l0 (nth_error_In _ _ Hn)). apply negb_true_iff in Hno. apply orb_false_elim in Hno.
-    destruct Hno as [N1 N2]. destruct Hr as [[Hr _]|[Hr _]]; congruence.
-  - exfalso. unfold c_content_unplaced in Hu. rewrite (Hch l Hl) in Hu. cbn in Hu. discriminate.
+  intros pp is_call ls site i H Hc Hno.
+  destruct (culprit_content_sites_lemma _ _ _ _ _ H Hc) as [Hk|[_ (i0 & l0 & Hn & Hr)]]; [exact Hk|].
+  exfalso. unfold no_block_opener in Hno. rewrite forallb_forall in Hno.
+  specialize (Hno l0 (nth_error_In _ _ Hn)). apply negb_true_iff in Hno. apply orb_false_elim in Hno.
+  destruct Hno as [N1 N2]. destruct Hr as [[Hr _]|[Hr _]]; congruence.
 Qed.
 
 (* the "call:*" sites never have a line: their index is the dummy 0 *)
@@ -1562,14 +1535,13 @@ Lemma call_sites_carry_no_line_lemma : forall pp is_call ls site i,
   parse_real pp is_call ls = PDiag (DSyntax site i) -> callsite site = true -> i = 0.
 Proof.
   intros pp is_call ls site i H Hc.
-  destruct (diag_classified_lemma _ _ _ _ _ H) as [_ [(l & _ & Hk)|[[Hb _]|[[Hk _]|[[Hk _]|[_ Hk]]]]]]; auto.
+  destruct (diag_classified_lemma _ _ _ _ _ H) as [_ [(l & _ & Hk)|[[Hb _]|[[Hk _]|[_ Hk]]]]]; auto.
   - apply culprit_known in Hk. apply orb_prop in Hk. destruct Hk as [Hk|Hk].
     + apply orb_prop in Hk. destruct Hk as [Hk|Hk].
       * rewrite (callsite_not_msite _ Hc) in Hk. discriminate.
       * rewrite (bsite_not_callsite _ Hk) in Hc. discriminate.
     + rewrite (csite_not_callsite _ Hk) in Hc. discriminate.
   - rewrite (bsite_not_callsite _ Hb) in Hc. discriminate.
-  - rewrite (csite_not_callsite _ Hk) in Hc. discriminate.
   - rewrite (csite_not_callsite _ Hk) in Hc. discriminate.
 Qed.
 
@@ -1585,6 +1557,25 @@ Proof.
   - left. eapply culprit_main_sites_lemma; eauto.
   - destruct (culprit_block_sites_lemma _ _ _ _ _ H Hb) as [Hk|Hr]; [left; exact Hk|right; split; assumption].
 Qed.
+
+(* every site that can have a line (all but the "call:*" sites): located, or one of the two F14b kinds *)
+Definition has_line_site (s : string) : bool := msite s || bsite s || csite s.
+
+Lemma culprit_all_line_sites_lemma : forall pp is_call ls site i,
+  parse_real pp is_call ls = PDiag (DSyntax site i) -> has_line_site site = true ->
+  (exists l, nth_error (prepass ls) i = Some l /\ culprit site l = true) \/
+  (bsite site = true /\ raised_in_loop_body (prepass ls) site i) \/
+  (csite site = true /\ i = 0 /\ raised_in_block (prepass ls) site).
+Proof.
+  intros pp is_call ls site i H Hs.
+  destruct (diag_classified_lemma _ _ _ _ _ H) as [_ [Hk|[Hk|[Hk|[Hk _]]]]]; auto.
+  exfalso. unfold has_line_site in Hs. apply orb_prop in Hs. destruct Hs as [Hs|Hs].
+  - apply orb_prop in Hs. destruct Hs as [Hs|Hs].
+    + rewrite (callsite_not_msite _ Hk) in Hs. discriminate.
+    + rewrite (bsite_not_callsite _ Hs) in Hk. discriminate.
+  - rewrite (csite_not_callsite _ Hs) in Hk. discriminate.
+Qed.
+
 
 (* ------------------------------------------------------------------------------------------- *)
 (* 11. non-vacuity: one concrete story per covered family (each was also run through the real    *)
@@ -1754,19 +1745,33 @@ Proof.
   vm_compute. repeat split; reflexivity.
 Qed.
 
-(* kind (e) happens IN THE MODEL ONLY: a brace error in the text of a choice gets the index of the choice line
-   (2) from Compiler/ParseMain.v; the real compiler's message for this story is
-   "Unclosed expression in: Go {x", without file or line (known finding construct:choice-text-brace:no-line) *)
+(* the former kind (e) (model only until /repo 53252c0 / eecafed), now located: a brace error in the text of a
+   choice, and the nesting cap of inline conditionals on a content line, in a `-> @join` block and in a choice text.
+   Replayed on the real compiler: "on line 3" for all four stories. *)
+Fixpoint nested_inline (n : nat) : string :=
+  match n with 0 => "x" | S k => ("{c ? " ++ nested_inline k ++ " | y}")%string end.
 Definition L_content_choice : list string := [":: Start"; "Hello."; "+ [Go {x] -> Start"].
-Example ex_choice_text_is_unplaced :
-  ex_parse L_content_choice = PDiag (DSyntax "content:braces" 2) /\
-  c_content_unplaced "content:braces" "+ [Go {x] -> Start" = true.
-Proof. vm_compute. repeat split; reflexivity. Qed.
+Example ex_content_choice : located_example L_content_choice "content:braces" 2 = true.
+Proof. vm_compute. reflexivity. Qed.
+Example ex_choice_text_culprit_is_the_choice :
+  choice_text_rejected "content:braces" "+ [Go {x] -> Start" = true.
+Proof. vm_compute. reflexivity. Qed.
+Definition L_depth_main : list string := [":: Start"; "Hello."; nested_inline 52].
+Example ex_depth_main : located_example L_depth_main "content:nesting-depth" 2 = true.
+Proof. vm_compute. reflexivity. Qed.
+Definition L_depth_join : list string :=
+  [":: Start"; "+ [Go] -> @join"; ("    " ++ nested_inline 52)%string; "@join"; "x"].
+Example ex_depth_join : located_example L_depth_join "content:nesting-depth" 2 = true.
+Proof. vm_compute. reflexivity. Qed.
+Definition L_depth_choice : list string := [":: Start"; "t"; ("+ [Go " ++ nested_inline 52 ++ "] -> Start")%string].
+Example ex_depth_choice : located_example L_depth_choice "content:nesting-depth" 2 = true.
+Proof. vm_compute. reflexivity. Qed.
 
 Print Assumptions diag_index_in_range_lemma.
 Print Assumptions diag_classified_lemma.
 Print Assumptions culprit_covered_sites_lemma.
-Print Assumptions culprit_content_sites_partial_lemma.
+Print Assumptions culprit_all_line_sites_lemma.
+Print Assumptions culprit_content_sites_lemma.
 Print Assumptions every_site_is_known_lemma.
 Print Assumptions prepass_line_is_prefix_lemma.
 Print Assumptions loop_body_index_is_not_the_line_refuted_lemma.
